@@ -671,16 +671,19 @@ def u_to_euler(U_matrix):
     if CHECKS.activated: checks._check_rotation_matrix(U)
 
     tol = 1e-8
-    PHI = np.arccos(U[2, 2])
-    if np.abs(PHI)<tol:
+    PHI = np.arccos(np.clip(U[2, 2], -1, 1))
+    # sin(PHI) as seen by the two pairs of matrix elements used below
+    sPHI1 = np.sqrt(U[0, 2]**2 + U[1, 2]**2)
+    sPHI2 = np.sqrt(U[2, 0]**2 + U[2, 1]**2)
+    if np.abs(PHI)<tol or (U[2, 2]>0 and min(sPHI1, sPHI2)<tol):
         phi1 = _arctan2(-U[0, 1], U[0, 0])
         phi2 = 0
-    elif np.abs(PHI-np.pi)<tol:
+    elif np.abs(PHI-np.pi)<tol or (U[2, 2]<0 and min(sPHI1, sPHI2)<tol):
         phi1 = _arctan2(U[0, 1], U[0, 0])
         phi2 = 0
     else:
-        phi1 = _arctan2(U[0, 2], -U[1, 2])
-        phi2 = _arctan2(U[2, 0], U[2, 1])
+        phi1 = _arctan2(U[0, 2]/sPHI1, -U[1, 2]/sPHI1)
+        phi2 = _arctan2(U[2, 0]/sPHI2, U[2, 1]/sPHI2)
             
     if phi1<0:
         phi1 = phi1 + 2*np.pi
